@@ -146,6 +146,10 @@ pub fn apply(ctx: &mut Ctx, op: &Op) -> (String, i64) {
                 store.strip_annotation_ids();
                 Ok(0)
             }
+            "ShrinkToFit" => {
+                store.shrink_to_fit(true);
+                Ok(0)
+            }
             "StripDataIds" => {
                 store.strip_data_ids();
                 Ok(0)
